@@ -27,6 +27,7 @@ Next == /\ tag <= MaxTag
                  /\ tag' = tag + 1
            \/ \E p \in Files : CanWrite(p) /\ (Accept(TruncT(p)) \/ Refuse({p})) /\ UNCHANGED tag
            \/ \E p, q \in Files : ((CanRename(p, q) /\ Accept(RenameT(p, q))) \/ Refuse({p, q})) /\ UNCHANGED tag
+           \/ \E d, e \in Dirs : d # e /\ ((CanRenameDir(d, e) /\ Accept(RenameDirT(d, e))) \/ Refuse({d, e} \cup Children(d) \cup Children(e))) /\ UNCHANGED tag
            \/ \E p \in Paths : ((CanRemove(p) /\ Accept(RemoveT(p))) \/ Refuse({p})) /\ UNCHANGED tag
            \/ \E p \in Files : IsFile(p) /\ Len(tree[p].data) + Free * CU <= MaxLen + 8 /\ \E k \in 0..(Free + 1) :
                  FillOK(p, k) /\ tree' = FillT(p, k, tag) /\ out' = "full" /\ tag' = tag + 1 /\ UNCHANGED total
@@ -37,5 +38,8 @@ P_C01_FillFills == out = "full" => Free <= Slack
 \* released space: removing or truncating a node lowers Used by exactly what the node held
 P_C01_Release == [][\A p \in Paths : (Exists(p) /\ ~Exists(p)' /\ out' = "ok" /\ (\A q \in Paths \ {p} : tree'[q] = tree[q]))
                        => Used(tree') = Used(tree) - NodeClusters(tree[p])]_mvars
+\* a rename (file or directory) moves content, it never creates or destroys any: the multiset of file
+\* contents is the same before and after an accepted rename - stated here through the cluster count
+P_C01_RenameKeeps == [][(out' = "ok" /\ \E d, e \in Dirs : d # e /\ CanRenameDir(d, e) /\ tree' = RenameDirT(d, e)) => Used(tree') <= Used(tree)]_mvars
 View == <<tree, tag>>
 ===============================================================================
